@@ -69,9 +69,59 @@ class ReobsGen:
     def req(c, tx):
         return {"ev": "Request", "a": {"c": str(c), "tx": tx}}
 
-    def tx(self):
-        n = self.r.choice([0, 1, 8, 32, 32, 32, 64])
+    def hexn(self, n):
         return "".join("%02x" % self.r.randrange(256) for _ in range(n))
+
+    def tx(self):
+        """A transaction id: a byte string of any length (EVM hashes are 32 bytes; Solana / Algorand / Alephium ids are not)."""
+        return self.hexn(self.r.choice([0, 1, 2, 8, 20, 31, 32, 32, 32, 33, 64]))
+
+    def txfamily(self):
+        """DIFFERENT ids that coincide under some crop / pad normalisation to a fixed width (last or first 32 bytes, left or
+        right zero padding, leading-zero stripping, numeric value)."""
+        r = self.r
+        b = self.hexn(32)
+        fams = [
+            [self.hexn(32) + b, self.hexn(32) + b],                    # two 64-byte ids sharing their trailing 32 bytes
+            [b + self.hexn(32), b + self.hexn(32)],                    # ... sharing their leading 32 bytes
+            [b, self.hexn(1) + b, self.hexn(32) + b],                  # a 32-byte id and longer ids ending in it
+            [b, b + self.hexn(1), b + self.hexn(32)],                  # ... beginning with it
+            ["07", "0007", "000007", "00" * 31 + "07", "0700", "07" + "00" * 31],   # the same number / left and right padding
+            ["", "00", "0000", "00" * 20, "00" * 31, "00" * 32, "00" * 33, "00" * 64],   # the empty id and zero ids of every length
+            ["00" + b[2:], b[2:], "0000" + b[2:]],                     # 32, 31 and 33 bytes: leading zero dropped / added
+            [self.hexn(20), None, None],                               # 20 bytes and its paddings to 32 (filled below)
+            [b[:62], b[:62] + "00", "00" + b[:62]],                    # 31 bytes, right- and left-padded to 32
+            [b, b.upper().lower(), b[:32] + b[:32]],                   # control: equal ids stay equal; a 32-byte id made of one half twice
+        ]
+        f = r.choice(fams)
+        if f[1] is None:
+            f = [f[0], "00" * 12 + f[0], f[0] + "00" * 12]
+        return f
+
+    def txids(self):
+        """Transaction-id identity: requests for different ids that collide under crop/pad normalisations, on the same chain
+        and across chains; each is a different transaction and must be forwarded; exact repeats are suppressed."""
+        r = self.r
+        fam = self.txfamily()
+        r.shuffle(fam)
+        steps = []
+        chains = ["2", "4"]
+        if r.random() < 0.4:
+            steps.append(self.adv(r.choice([1, 200, 419, 500])))
+        c = r.choice(chains)
+        for t in fam:
+            steps.append(self.req(c, t))
+        other = chains[1 - chains.index(c)]
+        for t in r.sample(fam, min(len(fam), 3)):
+            steps.append(self.req(other, t))
+        for t in r.sample(fam, min(len(fam), 2)):
+            steps.append(self.req(c, t))                               # exact repeats
+        for _ in range(3):
+            steps.append({"ev": "Drain", "a": {"c": c}})
+        steps.append(self.adv(r.choice([W - 1, W + P])))
+        for t in fam[:3]:
+            steps.append(self.req(c, t))
+        return {"cfg": {"caps": {"2": 40, "4": 40}, "fill": {}, "outcap": 1, "unit": 1}, "steps": steps, "src": "gen-txids"}
 
     def random(self):
         """Wide concrete domain: capacities 0..50, many chains and transactions, second-granular and long
@@ -86,6 +136,8 @@ class ReobsGen:
                 fill[str(c)] = ["f%03x" % i for i in range(r.randrange(0, k + 1))]
         unknown = [c for c in [0, 1, 2, 3, 4, 5, 7, 9, 10, 255, 256, 257, 10001, 65534] if c not in ids]
         txs = [self.tx() for _ in range(r.randrange(1, 7))]
+        if r.random() < 0.5:
+            txs += self.txfamily()[:4]
         outcap = r.choice([0, 1, 2, 5, 50])
         steps = []
         now = 0
@@ -252,6 +304,13 @@ def reobs_validate(work, lines):
     return vlib.tlc_prints(r["out"], "REJECT"), r
 
 
+def _tx_aliases(a, b):
+    """Two different ids that coincide under a crop / pad normalisation to 32 bytes (description only)."""
+    def norms(h):
+        return {("l", h[-64:].rjust(64, "0")), ("r", h[:64].ljust(64, "0")), ("s", h.lstrip("0")), ("t", h.rstrip("0"))}
+    return a != b and bool(norms(a) & norms(b))
+
+
 def reobs_annotate(lines):
     """Python mirror of the specification's bookkeeping, used ONLY to describe steps (coverage classes and
     violation signatures); verdicts come from TLC.  Returns {(t, n): class dict}."""
@@ -279,8 +338,9 @@ def reobs_annotate(lines):
             grew = [k for k in s.get("lens", {}) if s["lens"][k] != st["lens"].get(k)]
             fwd = known and s.get("lens", {}).get(c) == ln0 + 1
             low = str(int(c) & 0xffff)
+            alias = any(cc == c and tt != tx and _tx_aliases(tt, tx) for (cc, tt) in st["last"])
             cls.update(known=known, wide=wide, fill=fillc, age=agec, fwd=bool(fwd), grew=grew, phase=(st["now"] % P == 0),
-                       to_low16=bool(wide and low in grew))
+                       to_low16=bool(wide and low in grew), alias=alias, txlen=len(tx) // 2)
             if fwd:
                 st["last"][(c, tx)] = st["now"]
         elif ev == "Advance":
@@ -315,7 +375,10 @@ def reobs_signature(rej, line, cls):
             return "Request/wide-chain-id/" + ("forwarded-to-low-16-bits" if cls.get("to_low16") else "forwarded" if cls.get("grew") else "other")
         who = "known" if cls.get("known") else "unknown"
         out = "forwarded" if cls.get("fwd") else ("misrouted" if cls.get("grew") else "dropped")
-        return "Request/%s/age-%s/queue-%s/%s" % (who, cls.get("age"), cls.get("fill"), out)
+        sig = "Request/%s/age-%s/queue-%s/%s" % (who, cls.get("age"), cls.get("fill"), out)
+        if out == "dropped" and cls.get("age") == "never" and cls.get("alias"):
+            sig += "/tx-id-aliases-a-forwarded-one"      # a different id that collides with a remembered one after cropping / padding
+        return sig
     if ev == "Post":
         return "Post/ok=%s/%s" % (line.get("a", {}).get("ok"), "post-state" if "post-state" in rej.get("why", "") else "not-allowed")
     return "%s/%s" % (ev, "post-state" if "post-state" in rej.get("why", "") else "not-allowed")
@@ -427,6 +490,18 @@ class GovGen:
         n = r.choice([0, 1, 2, 3, r.randrange(0, 40)])
         return {"n": n, "pat": "explicit", "xs": [self.u(64, 64) for _ in range(n)]}
 
+    def respell(self, k):
+        """The same value in another accepted spelling (letter case, 0x / 0X / no prefix)."""
+        r = self.r
+        y = {"form": r.choice(["ok", "prefixed", "prefixedX"]), "hex": k["hex"], "n": k["n"], "cs": r.choice(["lower", "upper", "mixed"])}
+        y["chars"] = len(k["hex"]) + (0 if y["form"] == "ok" else 2)
+        return y
+
+    def key20(self):
+        r = self.r
+        # keys with many letters, so that their spelling really varies
+        return "".join(r.choice("0123456789abcdefabcdefabcdef") for _ in range(40))
+
     def guardians(self):
         r = self.r
         y = r.random()
@@ -436,12 +511,16 @@ class GovGen:
             z = r.random()
             if z < 0.02:
                 keys.append(self.text(20))
-            elif z < 0.04 and keys:
-                keys.append(dict(r.choice(keys)))          # duplicate
-            elif z < 0.1:
-                keys.append(_pre(self.hexbytes(20)))
+            elif z < 0.3:
+                keys.append(self.respell(_ok(self.key20())))     # a single key in any accepted spelling
             else:
-                keys.append(_ok(self.hexbytes(20)))
+                keys.append(_ok(self.key20()))
+        z = r.random()
+        if keys and z < 0.2:       # one guardian named twice, in a different spelling
+            k = r.choice([g for g in keys if g["form"] in ("ok", "prefixed", "prefixedX")] or [_ok(self.key20())])
+            keys.insert(r.randrange(len(keys) + 1), self.respell(k))
+        elif keys and z < 0.27:    # ... or literally twice
+            keys.insert(r.randrange(len(keys) + 1), dict(r.choice(keys)))
         return keys
 
     def refund(self):
